@@ -44,7 +44,9 @@ class Inconel800(Material):
         self.setMassFrac("CU", 0.0075)  # max.
         self.setMassFrac("AL", 0.00375)  # ave.
         self.setMassFrac("TI", 0.00375)  # ave.
-        self.setMassFrac("FE", 1.0 - sum(self.massFrac.values()))  # balance, 0.395 min.
+        # the balance of what the other elements leave (not counting a balance from an earlier call)
+        others = sum(frac for nuc, frac in self.massFrac.items() if nuc != "FE")
+        self.setMassFrac("FE", 1.0 - others)  # balance, 0.395 min.
 
         self.refDens = 7.94
 
